@@ -42,6 +42,7 @@ func C05(r *core.Run) {
 	elementKinds(r)
 	labelIndependence(r)
 	refNameKeepsLast(r)
+	nestedSkipsMapEntries(r, printRel) // a map entry printed as a nested message duplicates the map field
 	// option string values are rendered by an adaptation of prototext's escaper, which the .proto parser reads back
 	rules.VerbatimLoop(r, printRel+"/optionreflect", "prototextString", "google.golang.org/protobuf/internal/encoding/text", "appendString")
 	rules.VerbatimCopy(r, printRel+"/optionreflect", "indexNeedEscapeInString", "google.golang.org/protobuf/internal/encoding/text", "indexNeedEscapeInString")
@@ -192,7 +193,7 @@ func elementKinds(r *core.Run) {
 	core.AllFuncDecls(pk, func(fd *ast.FuncDecl) {
 		ast.Inspect(fd.Body, func(n ast.Node) bool {
 			c, ok := n.(*ast.CallExpr)
-			if !ok || !strings.HasSuffix(core.CalleeName(info, c), "sourceElements).add") || len(c.Args) != 1 {
+			if !ok || !core.CalleeIs(info, c, printRel, "sourceElements.add") || len(c.Args) != 1 {
 				return true
 			}
 			t := core.TypeStr(info.TypeOf(c.Args[0]))
